@@ -152,6 +152,7 @@ def rules(ctx):
     from .C14 import reset_reachability, refresh_order
     reset_reachability(ctx, 'R03.3')
     refresh_order(ctx, 'R03.3')
+    C02.record_not_shared(ctx, 'R03.4')
 
     # ---------------------------------------------------------------- R03.5
     table = ['is_solution_valid', 'remove_ancilla_from_solution', 'subs', '__round__', 'update',
